@@ -194,6 +194,23 @@ def gen_cases(run: Run, n: int):
             mode = "asis"
         i2, o2, drop = make_request(rng, ins, outs, mode)
         cases.append(B.Case(i2, o2, drop, {"mode": mode, "legal": mode != "output_name_clash"}))   # a name clash may be refused
+    # an argument the outputs depend on ONLY through nested bodies (If branch / If inside a Loop body / one level deeper) is not listed:
+    # KeyError, as for an argument used directly - for both values of drop_unused_inputs
+    import numpy as np
+    for depth in (1, 2, 3):
+        for drop in (False, True):
+            cond = B.argument(B.Tensor(np.bool_, ()))
+            a = B.argument(B.Tensor(np.float32, (2,)))
+            b = B.argument(B.Tensor(np.float32, (2,)))
+
+            def nest(d, acc):
+                if d == 1:
+                    return B.op17.if_(cond, then_branch=lambda: [B.op17.add(acc, b)], else_branch=lambda: [B.op17.sub(acc, b)])[0]
+                if d % 2 == 0:
+                    return B.op17.loop(B.op17.const(np.array(2, np.int64)), v_initial=[acc], body=lambda i, c, x: [c, nest(d - 1, x)])[0]
+                return B.op17.if_(cond, then_branch=lambda: [nest(d - 1, acc)], else_branch=lambda: [B.op17.identity(acc)])[0]
+
+            cases.append(B.Case({"cond": cond, "a": a}, {"y": nest(depth, a)}, drop, {"mode": "unlisted_argument_used_only_in_nested_bodies", "legal": True}))
     return cases, g.hist
 
 
